@@ -10,7 +10,11 @@ Inductive case :=
 | Trace (maxpool : Z) (t : list lc)
 | PoolSeq (maxpool : Z) (ops : list sop)
 | Hung (t : list lc)    (* the scenario did not return (or panicked); t = what had been recorded by then *)
-| Exchange (steps : list bw_step).   (* family E: the datagrams of one scripted block-wise exchange, one window each *)
+| Exchange (steps : list bw_step)    (* family E: the datagrams of one scripted block-wise exchange, one window each *)
+| PingX (maxrt : Z) (obs : list ping_obs)   (* family K: the life of one AsyncPing, one window per finisher *)
+| GiveUp (gate : Z) (reached returned : bool) (t : list lc).
+   (* family G: a block-wise call given up while a receive path is at its gate-th access to the caller's request;
+      reached = the receive path got that far; returned = Do returned while the receive path was held there *)
 
 (* ---- comparison of an observed window with the model's path, up to the names of the objects ----
    canon renames the objects in the order of their first occurrence; the hand-out of a recycled object
@@ -34,7 +38,7 @@ Definition canon (t : list lc) : list lc := canon_go [] 0 t.
 
 Definition lc_eqb (a b : lc) : bool :=
   match a, b with
-  | Rel x, Rel y | Rec x, Rec y | Hold x, Hold y | AppRel x, AppRel y => x =? y
+  | Rel x, Rel y | Rec x, Rec y | Hold x, Hold y | AppRel x, AppRel y | Use x, Use y => x =? y
   | Reacq x p, Reacq y q | Unhold x p, Unhold y q => (x =? y) && Bool.eqb p q
   | _, _ => false
   end.
@@ -68,6 +72,23 @@ Fixpoint bw_class (steps : list bw_step) : N :=
   | BwStep _ _ _ _ _ _ _ win :: r => let c := c12_class win in if N.eqb c 0 then bw_class r else c
   end.
 
+(* the windows of a ping against ping_step (Pool/Model.v): the first finisher releases the ping message (the pong also
+   the writer message used for the dispatch), a sweep before the last retransmission releases the copy it sent, whoever
+   comes after the entry has gone does nothing *)
+Fixpoint ping_agrees (maxrt : nat) (s : pstate) (next : Z) (obs : list ping_obs) : bool :=
+  match obs with
+  | [] => true
+  | PObs f win :: r =>
+      let '(s', next', w) := ping_step maxrt false s next f in
+      lcs_eqb (canon win) (canon w) && ping_agrees maxrt s' next' r
+  end.
+
+Fixpoint ping_class (obs : list ping_obs) : N :=
+  match obs with
+  | [] => 0%N
+  | PObs _ win :: r => let c := c12_class win in if N.eqb c 0 then ping_class r else c
+  end.
+
 (* the observed trace must be a run of the pool automaton: classes 1-5 are ownership violations (property),
    6 means the implementation left the automaton (recycle without release, hand-out of a non-pooled object);
    a sequential script must be, step by step, what the counter model of Pool/Bounded.v predicts *)
@@ -77,9 +98,20 @@ Definition agrees (c : case) : bool :=
   | PoolSeq mx ops => seq_ok mx 0 0 ops
   | Hung _ => false   (* the model has no hanging or panicking run *)
   | Exchange steps => bw_agrees [] [] steps
+  | PingX maxrt obs => ping_agrees (Z.to_nat maxrt) (PPending 0) 1 obs
+  | GiveUp _ reached returned t =>
+      (* Pool/Use.v giveup_caller_waits: while a receive path that found the entry is inside its locked section the
+         caller has not got past its Delete - Do cannot have returned *)
+      negb (reached && returned) && negb (N.eqb (check t) 6)
   end.
 
-Definition pclass (c : case) : N := match c with Trace _ t | Hung t => c12_class t | PoolSeq _ _ => 0%N | Exchange steps => bw_class steps end.
+Definition pclass (c : case) : N :=
+  match c with
+  | Trace _ t | Hung t | GiveUp _ _ _ t => c12_class t
+  | PoolSeq _ _ => 0%N
+  | Exchange steps => bw_class steps
+  | PingX _ obs => ping_class obs
+  end.
 
 Definition mismatches (cs : list case) : list N := bad_indices (fun c => negb (agrees c)) cs.
 Definition property_failures (cs : list case) : list (N * N) := classes pclass cs.
